@@ -52,7 +52,9 @@ Qed.
 
 Lemma check_fn p g : check p = true -> In g (funs p) -> chk_stmt p g [] (fbody g) = true.
 Proof.
-  unfold check. intros H Hg. apply andb_prop in H. destruct H as [H _]. rewrite forallb_forall in H. apply (H g Hg).
+  unfold check. intros H Hg. apply andb_prop in H. destruct H as [H _]. apply andb_prop in H. destruct H as [H _].
+  rewrite forallb_forall in H.
+  specialize (H g Hg). unfold fn_ok in H. repeat (apply andb_prop in H; destruct H as [H ?]). exact H.
 Qed.
 
 (* any expression e that fails the expression rules, at any position of any statement of any function *)
@@ -181,7 +183,7 @@ Proof.
 Qed.
 Theorem acyclic_lemma p : check p = true -> forall f, ~ path p f f.
 Proof.
-  intros Hc f Hp. unfold check in Hc. apply andb_prop in Hc. destruct Hc as [_ Ha].
+  intros Hc f Hp. unfold check in Hc. apply andb_prop in Hc. destruct Hc as [Hc _]. apply andb_prop in Hc. destruct Hc as [_ Ha].
   unfold acyclic in Ha. rewrite forallb_forall in Ha.
   assert (Hf : (f < length (funs p))%nat).
   { inversion Hp as [? ? [h [Hh _]]|? ? ? [h [Hh _]]]; subst; apply nth_error_Some; congruence. }
@@ -201,3 +203,91 @@ Proof.
   destruct Hs as [Hs|Hs]; destruct (chk_subs p g _ _ Hs _ H1) as [L' H2]; cbn in H2;
     repeat (apply andb_prop in H2; destruct H2 as [H2 ?]); exact H2.
 Qed.
+
+(* ---- iterator mutation through an internal call *)
+Lemma check_fn_iter p g : check p = true -> In g (funs p) -> iter_calls_ok p [] (fbody g) = true.
+Proof.
+  unfold check. intros H Hg. apply andb_prop in H. destruct H as [H _]. apply andb_prop in H. destruct H as [H _].
+  rewrite forallb_forall in H.
+  specialize (H g Hg). unfold fn_ok in H. apply andb_prop in H. destruct H as [H _]. apply andb_prop in H. tauto.
+Qed.
+Lemma iter_subs p s s' : subs s s' -> forall L, iter_calls_ok p L s' = true -> exists L', incl L L' /\ iter_calls_ok p L' s = true.
+Proof.
+  induction 1; cbn; intros L Hc.
+  - exists L. split; [apply incl_refl|auto].
+  - apply andb_prop in Hc. destruct Hc as [Hc ?]. eauto.
+  - apply andb_prop in Hc. destruct Hc as [? Hc]. eauto.
+  - apply andb_prop in Hc. destruct Hc as [Hc ?]. apply andb_prop in Hc. destruct Hc as [? Hc]. eauto.
+  - apply andb_prop in Hc. destruct Hc as [? Hc]. eauto.
+  - apply andb_prop in Hc. destruct Hc as [? Hc]. eauto.
+  - destruct (IHsubs _ Hc) as [L' [Hi Hk]]. exists L'. split; auto. intros q Hq. apply Hi. right. exact Hq.
+Qed.
+Lemma in_iter_incl L L' k x : incl L L' -> in_iter L k x = true -> in_iter L' k x = true.
+Proof.
+  unfold in_iter. rewrite !existsb_exists. intros Hi [q [Hq Hb]]. exists q. split; auto.
+Qed.
+(* `for i in <k,x>: ... self.f(..) ...` where f (transitively) writes <k,x>, the call at any depth of the loop body,
+   in any expression position: rejected *)
+Theorem reject_iterator_mutation_via_call p g i k x n b s e0 f a :
+  In g (funs p) -> subs (SForList i k x n b) (fbody g) -> subs s b -> top_expr e0 s -> sube (ECall f a) e0 ->
+  In (k, x) (fwrites (length (funs p)) p f) -> check p = false.
+Proof.
+  intros Hg Hfor Hs Ht He Hw. destruct (check p) eqn:C; [|reflexivity]. exfalso.
+  pose proof (check_fn_iter p g C Hg) as H1.
+  destruct (iter_subs p _ _ Hfor _ H1) as [L1 [_ H2]]. cbn in H2.
+  destruct (iter_subs p _ _ Hs _ H2) as [L2 [Hi H3]].
+  assert (HL : in_iter L2 k x = true).
+  { apply (in_iter_incl ((k, x) :: L1)); auto. unfold in_iter. cbn. destruct k; cbn; rewrite Nat.eqb_refl; reflexivity. }
+  assert (Hcal : In f (callees_e e0)).
+  { clear -He. induction He; cbn; auto with datatypes. }
+  assert (Hk : calls_keep p L2 (callees_e e0) = true).
+  { destruct Ht; cbn in H3; auto; repeat (apply andb_prop in H3; destruct H3 as [H3 ?]); auto. }
+  unfold calls_keep in Hk. rewrite forallb_forall in Hk. specialize (Hk f Hcal).
+  apply negb_true_iff in Hk. 
+  assert (existsb (fun q => in_iter L2 (fst q) (snd q)) (fwrites (length (funs p)) p f) = true).
+  { apply existsb_exists. exists (k, x). split; auto. }
+  congruence.
+Qed.
+
+(* ---- modules *)
+Lemma check_fn_mod p g : check p = true -> In g (funs p) -> mod_fn_ok p g = true.
+Proof.
+  unfold check. intros H Hg. apply andb_prop in H. destruct H as [H _]. apply andb_prop in H. destruct H as [H _].
+  rewrite forallb_forall in H. specialize (H g Hg). unfold fn_ok in H. apply andb_prop in H. tauto.
+Qed.
+Lemma touches_sube e e' : sube e e' -> touches_e e = true -> touches_e e' = true.
+Proof. induction 1; cbn; intros Ht; auto; rewrite IHsube; auto; apply orb_true_r. Qed.
+Lemma touches_top e s : top_expr e s -> touches_e e = true -> touches_s s = true.
+Proof. destruct 1; cbn; intros ->; auto; rewrite ?orb_true_r; reflexivity. Qed.
+Lemma touches_subs s s' : subs s s' -> touches_s s = true -> touches_s s' = true.
+Proof. induction 1; cbn; intros Ht; auto; rewrite IHsubs; auto; rewrite ?orb_true_r; reflexivity. Qed.
+
+(* the main contract touches lib1 state (read or write, any position) without `uses` / `initializes` *)
+Theorem reject_lib_state_access p g s e0 k x :
+  In g (funs p) -> flib g = false -> owns p = NoOwn -> lib_var k x = true ->
+  subs s (fbody g) -> (top_expr e0 s /\ sube (EVar k x) e0 \/ (exists e, s = SAssign k x e \/ s = SAug k x e)) ->
+  check p = false.
+Proof.
+  intros Hg Hl Ho Hv Hs Hpos. destruct (check p) eqn:C; [|reflexivity]. exfalso.
+  pose proof (check_fn_mod p g C Hg) as M. unfold mod_fn_ok in M. rewrite Hl, Ho in M.
+  apply andb_prop in M. destruct M as [M _]. apply negb_true_iff in M.
+  assert (touches_s (fbody g) = true); [|congruence].
+  apply (touches_subs s); auto.
+  destruct Hpos as [[Ht He]|[e [->| ->]]].
+  - apply (touches_top e0); auto. apply (touches_sube (EVar k x)); auto.
+  - cbn. rewrite Hv. reflexivity.
+  - cbn. rewrite Hv. reflexivity.
+Qed.
+(* ... or calls (at any position) a lib1 function that uses lib1 state, directly or transitively *)
+Theorem reject_lib_stateful_call p g f :
+  In g (funs p) -> flib g = false -> owns p = NoOwn -> In f (callees_s (fbody g)) ->
+  fuses (length (funs p)) p f = true -> check p = false.
+Proof.
+  intros Hg Hl Ho Hf Hu. destruct (check p) eqn:C; [|reflexivity]. exfalso.
+  pose proof (check_fn_mod p g C Hg) as M. unfold mod_fn_ok in M. rewrite Hl, Ho in M.
+  apply andb_prop in M. destruct M as [_ M]. apply negb_true_iff in M.
+  assert (existsb (fuses (length (funs p)) p) (callees_s (fbody g)) = true); [|congruence].
+  apply existsb_exists. eauto.
+Qed.
+Theorem reject_uses_without_initializes p : owns p = Uses -> check p = false.
+Proof. intros H. unfold check, own_ok. rewrite H. apply andb_false_r. Qed.
